@@ -24,7 +24,8 @@ def battery(seed: int, n: int) -> list[dict]:
 
 def fmt(r) -> str:
     if r[0] == "err":
-        return "!" + r[1]
+        from .core import LAST
+        return "!" + r[1] + (": " + LAST["text"] if LAST["text"] else "")      # the message is part of the outcome
     v = r[1]
     if isinstance(v, float):
         return v.hex()
@@ -56,6 +57,15 @@ def run(seed: int, perm: int, n: int) -> list[str]:
             res.append(fmt(call(lambda: sm.Partial(mk(), x).as_expression(), timeout=30)))
             res.append(fmt(call(lambda: sm.Differential(mk(), compute_early=True).component(x).as_expression(), timeout=30)))
         res.append(fmt(call(lambda: mk()._normalize(), timeout=30)))
+        # points that lack some of the variables: which error, with which message
+        base_items = [(k_, wire.raw_num(v)) for k_, v in c["p"]]        # sorted by name: what is dropped does not depend on perm
+        for k in range(1, min(len(base_items), 3) + 1):
+            rest = list(itertools.permutations(base_items[k:]))[: 6]
+            q = Point(**dict(rest[perm % len(rest)]))
+            res.append(fmt(call(lambda: mk().at(q))))
+            res.append(fmt(call(lambda: sm.LocatedDifferential(mk(), q))).split("(")[0])
+            res.append(fmt(call(lambda: sm.Partial(mk(), names[0] if names else "w", compute_early=True).at(q), timeout=30)))
+            res.append(fmt(call(lambda: sm.Differential(mk()).at(q))).split("(")[0])
         if len(names) <= 1:
             res.append(fmt(call(lambda: sm.Derivative(mk()).at(1.25))))
             res.append(fmt(call(lambda: mk().at(0.75))))
